@@ -416,6 +416,22 @@ def inline_corpus():
     return C
 
 
+def size_boundary(total):
+    """a grammar with exactly `total` productions (counting the synthetic start production) and far fewer
+    LR states: the table integer type is chosen at such boundaries (127/128/129 for i8).
+    S = A_i t_i ; A_i = one of 5 or 6 shared terminals (told apart by the lookahead t_i)."""
+    shared = ["x", "y", "z", "w", "v", "u"]
+    n = 20
+    want = total - n - 1                     # alternatives of all A_i together
+    rules = {"S": [["A%d" % i, "t%d" % i] for i in range(n)]}
+    base, extra = divmod(want, n)
+    assert 1 <= base <= 5 and total >= 2 * n + 1
+    for i in range(n):
+        k = base + (1 if i < extra else 0)
+        rules["A%d" % i] = [[t] for t in shared[:k]]
+    return G("size%d" % total, shared + ["t%d" % i for i in range(n)], rules)
+
+
 def nonlalr_family(r, idx):
     """LR(1)-but-not-LALR(1) grammars: two contexts (a/b) x two nonterminals with the same body, the body
     reaching its end through a random chain of nonterminals (so that lane-table state splitting has to
